@@ -281,6 +281,10 @@ def draw_profiles(rng, kind, nz_layers, zm, closures=("MOST", "MOSTM", "CONSTANT
         fam = Family.draw(rng, zm, z0)
         g = str(rng.choice(["uniform", "geometric", "expmap"]))
         z = vgrid(g, z0, zm * float(rng.uniform(1.0, 2.0)), nz_layers)
+        if rng.random() < 0.15:
+            # a wind that turns with height and blows exactly along x at the top node only (v[-1] == 0.0, non-zero below)
+            fam.d["veer"] = float(rng.choice([-1, 1]) * rng.uniform(0.2, 1.2))
+            fam.d["theta"] = -(fam.d["veer"] * float(z[-1]) / fam.d["zm"])
         return z, fam(z), dict(kind=kind, grid=g, z0=z0, **fam.d)
     if kind == "constant":
         z0 = float(zm * 10 ** rng.uniform(-2.0, -0.7))
